@@ -5,7 +5,8 @@ import json, os, re, subprocess, sys, time, hashlib, shutil
 VERIF = os.path.dirname(os.path.dirname(os.path.abspath(__file__)))
 REPO = os.environ.get("VERIF_REPO", "/repo")
 SPEC = os.path.join(VERIF, "spec")
-WORK = os.path.join(VERIF, "work")
+WORK = os.environ.get("VERIF_WORK", os.path.join(VERIF, "work"))      # (overridden only by development sweeps run next to other work)
+EVIDENCE = os.environ.get("VERIF_EVIDENCE", os.path.join(VERIF, "evidence"))
 HARNESS_DIR = os.path.join(VERIF, "harness")
 HARNESS_BIN = os.path.join(HARNESS_DIR, "target", "debug", "verif-harness")
 RUSCHM_BIN = os.path.join(HARNESS_DIR, "target", "bin", "debug", "ruschm")
@@ -396,8 +397,8 @@ class Ctx:
         ev = {"property_id": self.prop, "tier": self.tier, "seed": self.seed, "level": level,
               "coverage": self.cov, "assumptions": self.assumptions,
               "wall_s": round(time.time() - self.t0, 1), "violations": self.nviol}
-        os.makedirs(os.path.join(VERIF, "evidence"), exist_ok=True)
-        with open(os.path.join(VERIF, "evidence", self.prop + ".json"), "w") as f:
+        os.makedirs(EVIDENCE, exist_ok=True)
+        with open(os.path.join(EVIDENCE, self.prop + ".json"), "w") as f:
             json.dump(ev, f, indent=1)
         if self.nviol:
             log("[%s] %d violation(s) (first %d written to %s)" % (self.prop, self.nviol, min(self.nviol, 25), self.replay_dir))
